@@ -7,6 +7,8 @@ func init() {
 		NotDecided:  "That concurrent results equal the sequential ones beyond race-freedom of the enumerated state; liveness; the mutex in addString is not required (lost updates still return private copies).",
 		Assumptions: []string{"A3", "A5"},
 		Run: func(c *Ctx) {
+			ruleSharedRecvWrites(c)
+			rulePublishWinner(c)
 			ruleNoStateCache(c)
 			ruleAtomicFields(c)
 			ruleSyncFields(c)
